@@ -24,3 +24,9 @@ add('C14', 'Hypothesis grammar-based strings + differential reference parser (ex
     'exactly in rationals on reactions constructed to balance and on perturbed ones; formulas are compared with their own token lists. Exploration only.',
     'Trusted: the reference parser/tokeniser in vf/p14.py; names never contain a delimiter; imbalances in (0,1e-6) relative are not generated.',
     'DESIGN.md 3/C14')
+add('C18', 'Hypothesis generated id collections / token lists + reference range decoder (round-trip) and unwrap oracle; exhaustive small-universe sweep',
+    'Identifier collections (1-3 prefixes incl. delimiter-containing and empty ones, gaps, duplicates, any order, str/.id/.name, both formats) are compressed and '
+    'expanded again by an independent decoder: decoded set must equal the input set; all 512 subsets of a 9-id universe are enumerated; un-encodable members must raise; '
+    'wrapped CTI values are unwrapped and compared token by token with per-line width limits. Exploration (small universe exhaustive).',
+    'Trusted: the decoder\'s reading of "A to B" (ids between the endpoints at the endpoint\'s digit count); tokens contain no blanks or quotes.',
+    'DESIGN.md 3/C18')
